@@ -1423,6 +1423,20 @@ impl Server {
     /// Perform any necessary cleanup before putting the server
     /// connection back in the pool
     pub async fn checkin_cleanup(&mut self) -> Result<(), Error> {
+        // An extended protocol COPY has ended but the client is gone without the Sync that
+        // completes it: the server is still inside that statement's implicit transaction.
+        if self.awaiting_sync {
+            self.send(&sync()).await?;
+
+            loop {
+                self.recv(None).await?;
+
+                if !self.is_data_available() {
+                    break;
+                }
+            }
+        }
+
         // Client disconnected with an open transaction on the server connection.
         // Pgbouncer behavior is to close the server connection but that can cause
         // server connection thrashing if clients repeatedly do this.
